@@ -42,6 +42,40 @@ func standalone(n ast.Node) bool {
 	return false
 }
 
+// typeNode: type expressions; their source slice must re-parse, in a type position, to the same type.
+func typeNode(n, parent ast.Node) bool {
+	switch x := n.(type) {
+	case *ast.ArrayType, *ast.MapType, *ast.ChanType, *ast.StructType, *ast.InterfaceType:
+		return true
+	case *ast.FuncType:
+		if !x.Func.IsValid() {
+			return false // interface method: no `func` keyword, the span is the signature only
+		}
+		switch parent.(type) {
+		case *ast.FuncDecl, *ast.FuncLit:
+			return false // the signature of a declaration or literal does not start at `func`
+		}
+		return true
+	}
+	return false
+}
+
+func reparseType(text string) (ast.Expr, error) {
+	fset := token.NewFileSet()
+	f, err := parser.ParseFile(fset, "t.xgo", []byte("var _ "+text+"\n"), 0)
+	if err != nil {
+		return nil, err
+	}
+	for _, d := range f.Decls {
+		if g, ok := d.(*ast.GenDecl); ok && len(g.Specs) == 1 {
+			if v, ok := g.Specs[0].(*ast.ValueSpec); ok && v.Type != nil {
+				return v.Type, nil
+			}
+		}
+	}
+	return nil, fmt.Errorf("no type found in the re-parsed declaration")
+}
+
 func check(k Case) (fails []*engine.Failure, nodes int, parsed bool) {
 	fn := k.File
 	if fn == "" {
@@ -136,6 +170,14 @@ func check(k Case) (fails []*engine.Failure, nodes int, parsed bool) {
 						add("slice-parses-differently:"+tname(n), "re-parsing the node's source slice yields a different expression", ctx()+" diff="+d)
 					}
 				}
+				if typeNode(n, parent) && starts[p] && ends[e] {
+					x, perr := reparseType(string(src[p:e]))
+					if perr != nil {
+						add("type-slice-does-not-parse:"+tname(n), "the type node's source slice does not parse as a type", ctx()+" err="+perr.Error())
+					} else if d := astx.Equal(n, x, astx.Options{}); d != "" {
+						add("type-slice-parses-differently:"+tname(n), "re-parsing the type node's source slice in a type position yields a different type", ctx()+" diff="+d)
+					}
+				}
 			}
 		}
 		kids := astx.Children(n, false)
@@ -226,6 +268,30 @@ func exprs(depth int) []string {
 	return out
 }
 
+// ---- enumerated type grammar: every type constructor nested to the given depth, in type and in
+// expression positions (the parser has separate routines for the two) ----
+func types(depth int) []string {
+	atoms := []string{"int", "T", "p.T"}
+	if depth == 0 {
+		return atoms
+	}
+	sub := types(depth - 1)
+	out := append([]string{}, atoms...)
+	for _, s := range sub {
+		out = append(out, "[]"+s, "[3]"+s, "*"+s, "map[string]"+s, "map["+s+"]int", "chan "+s, "<-chan "+s, "chan<- "+s, "chan ("+s+")",
+			"func("+s+")", "func() "+s, "func(a, b "+s+") (x "+s+", err error)", "func(..."+s+")", "struct{ f "+s+" }", "struct {\n\tf, g "+s+"\n\t"+"h int\n}", "interface{ M() "+s+" }", "("+s+")")
+	}
+	return out
+}
+
+func stmtsForType(t string) []string {
+	return []string{"var x " + t, "var x, y " + t + " = nil, nil", "type N " + t, "type N = " + t, "func f(a " + t + ") {\n}", "func f() " + t + " {\n\treturn nil\n}",
+		"func (r R) m(a int, b ..." + t + ") (c " + t + ") {\n\treturn\n}",
+		"x := make(" + t + ")", "x := make(" + t + ", 1)", "x := new(" + t + ")", "x := (" + t + ")(nil)", "x := []" + t + "{}", "x := map[string]" + t + "{}",
+		"x := y.(" + t + ")", "switch y.(type) {\ncase " + t + ":\n}", "x := func(a " + t + ") " + t + " { return a }", "var x struct {\n\ta " + t + "\n}",
+		"var x interface {\n\tM(a " + t + ") " + t + "\n}", "echo make(" + t + ")", "f (" + t + ")(nil), 1"}
+}
+
 func stmtsFor(e string) []string {
 	return []string{"x := " + e, "echo " + e, "return " + e, "if " + e + " {\n}", "for v <- " + e + " {\n}", "a <- " + e, "f " + e + ", 1", "x = " + e + "\ny++",
 		"f " + e + "...", "echo 1, " + e + "...", "f(" + e + "...)", "a <- " + e + "..."}
@@ -285,6 +351,20 @@ func main() {
 			cases = append(cases, Case{Src: s})
 		}
 	}
+	// types nested one level deeper than the expressions; layout variants for all but the deepest level
+	shallow := map[string]bool{}
+	for _, t := range types(depth) {
+		shallow[t] = true
+	}
+	noLayout := map[string]bool{}
+	for _, t := range types(depth + 1) {
+		for _, s := range stmtsForType(t) {
+			cases = append(cases, Case{Src: s})
+			if !shallow[t] {
+				noLayout[s] = true
+			}
+		}
+	}
 	maxTok := 40
 	if c.Thorough() {
 		maxTok = 120
@@ -293,6 +373,9 @@ func main() {
 	for _, k := range cases[:base] {
 		if k.File != "" && !c.Thorough() {
 			continue // repository files get layout variants in the thorough tier
+		}
+		if noLayout[k.Src] {
+			continue
 		}
 		for _, v := range layoutVariants(k.Src, maxTok) {
 			cases = append(cases, Case{Src: v, Layout: true})
